@@ -74,6 +74,15 @@ pub fn probe(k: i32, e: i32) -> XKey {
     PROBE.with(|p| p.set(id));
     XKey { k, e, id }
 }
+/// a key as it sits in a collection (not the probe of any call): for states loaded through the hook
+pub fn stored(k: i32, e: i32) -> XKey {
+    let id = NEXT_ID.with(|n| {
+        let v = n.get();
+        n.set(v.wrapping_add(1).max(1));
+        v
+    });
+    XKey { k, e, id }
+}
 fn is_probe(id: u32) -> i32 {
     (PROBE.with(|p| p.get()) == id) as i32
 }
